@@ -18,6 +18,7 @@ var checks = map[string]struct {
 	"C07": {"exploration", c07},
 	"C08": {"fault_enumeration", c08},
 	"C29": {"exploration", c29},
+	"C15": {"exploration", c15},
 }
 
 func main() {
